@@ -16,7 +16,9 @@ EXTRA_HARNESS = {"dev": ("dev", ()), "dbg0": ("dbg0", ())}
 EXTRA_ORACLE = ["dev", "dbg0"]
 THEOREMS = ["see Props/C05.v"]
 LIMIT = 80
-DEPTH_BOUND = 4 * LIMIT
+# the bound PROVED for the model in Props/C05.v (C05_depth_bound: DEPTH_BOUND = 5 * LIMIT - 6 = 394) and attained by
+# 79 chained [[..]] headers + a 79-segment dotted key + 78 arrays around an inline table with a 79-segment dotted key
+DEPTH_BOUND = 5 * LIMIT - 6
 RULE = ("every single construct (arrays, inline tables, top-level dotted keys, dotted keys inside inline tables, table header "
         "paths, array-of-tables header paths) at depths LIMIT-3..LIMIT+2 and far beyond, and all products of two and three "
         "constructs on a grid of depths; inputs <= 64 KiB; non-trivial = total requested nesting >= 10")
@@ -86,6 +88,30 @@ def gen_cases(rng, tier):
             for _ in range(levels):
                 v = b"[{" + k + b" = " + v + b"}]"
             add(b"a = " + v + b"\n", {"kind": "mult-arr-inldot", "n": levels * seg})
+    # the same with SHALLOW SIBLINGS at every level (before and after the deep entry): the depth of a container is the
+    # maximum over its entries, not that of its first, last or shallowest one
+    for levels in [2, 10, 40, 79]:
+        for seg in [1, 2, 40, 79]:
+            k = dotted(seg)
+            for pos in ("before", "after", "both"):
+                v = b"1"
+                for _ in range(levels):
+                    pre = b"x = 1, " if pos in ("before", "both") else b""
+                    post = b", y = [2]" if pos in ("after", "both") else b""
+                    v = b"{" + pre + k + b" = " + v + post + b"}"
+                add(b"a = " + v + b"\n", {"kind": "sibling-inldot-" + pos, "n": levels * seg})
+                v = b"1"
+                for _ in range(levels):
+                    pre = b"0, " if pos in ("before", "both") else b""
+                    post = b", {z = 1}" if pos in ("after", "both") else b""
+                    v = b"[" + pre + b"{" + k + b" = " + v + b"}" + post + b"]"
+                add(b"a = " + v + b"\n", {"kind": "sibling-arr-inldot-" + pos, "n": levels * seg})
+    for n in [40, 78, 79, 80, 200]:
+        for pos in ("before", "after", "both"):
+            v = b"1"
+            for _ in range(n):
+                v = b"[" + (b"0, " if pos != "after" else b"") + v + (b", 2" if pos != "before" else b"") + b"]"
+            add(b"a = " + v + b"\n", {"kind": "sibling-arr-" + pos, "n": n, "expect": "ok" if n <= LIMIT - 1 else "recursion"})
     # three constructs + header path + top-level dotted key
     g3 = [1, 20, 40, 78] if tier == "quick" else [1, 10, 20, 40, 60, 78, 79]
     for nh in g3:
@@ -114,6 +140,13 @@ def gen_cases(rng, tier):
                 for kv in kinds:
                     add(aot_chain(nh) + b"j." * (nd - 1) + b"j = " + shape(kv, nv) + b"\n",
                         {"kind": "aot-chain+dotted+%s" % kv, "n": 2 * nh + nd + nv})
+    # ... and products of two value constructs below the additive maximum of header chain and dotted key: anything that lets
+    # a VALUE nest deeper than the limit shows up as a total depth beyond the bound
+    for ka in kinds:
+        for kb in kinds:
+            for na, nb in [(39, 39), (40, 40), (77, 2), (2, 77), (77, 79), (78, 79), (79, 77), (60, 60)]:
+                add(aot_chain(79) + b"j." * 78 + b"j = " + shape(ka, na, shape(kb, nb)) + b"\n",
+                    {"kind": "aot-chain+dotted+%s*%s" % (ka, kb), "n": 2 * 79 + 79 + na + nb})
     if tier != "quick":
         for _ in range(3000):
             ks = [rng.choice(kinds) for _ in range(rng.randrange(2, 5))]
